@@ -78,6 +78,62 @@ RankFrom(M, r, c) ==      \* rows 1..r hold pivots already; c is the column exam
               IN RankFrom(TLCEval(el), r + 1, c + 1)
 Rank(M) == IF Rows(M) = 0 THEN 0 ELSE RankFrom(TLCEval(M), 0, 1)
 
+\* ---------------------------------------------------------------- rank modulo a prime (integers only: fast, no overflow)
+\* rank over GF(p) is a lower bound of the rational rank and equals it unless p divides a minor;
+\* used with two primes below 2^15 (products stay below 2^31).
+P1 == 32749
+P2 == 32719
+Mod(a, p) == ((a % p) + p) % p
+RECURSIVE PowMod(_, _, _)
+PowMod(a, e, p) == IF e = 0 THEN 1
+                   ELSE LET h == PowMod(a, e \div 2, p) hh == (h * h) % p
+                        IN IF e % 2 = 1 THEN (hh * a) % p ELSE hh
+InvMod(a, p) == PowMod(a, p - 2, p)
+ToField(q, p) == (Mod(q[1], p) * InvMod(Mod(q[2], p), p)) % p
+RECURSIVE RankModFrom(_, _, _, _)
+RankModFrom(M, r, c, p) ==
+    IF c > Cols(M) \/ r >= Rows(M) THEN r
+    ELSE LET cand == {i \in (r + 1)..Rows(M) : M[i][c] # 0} IN
+         IF cand = {} THEN RankModFrom(M, r, c + 1, p)
+         ELSE LET q == MinOf(cand)
+                  sw == [i \in 1..Rows(M) |-> IF i = r + 1 THEN M[q] ELSE IF i = q THEN M[r + 1] ELSE M[i]]
+                  piv == sw[r + 1]
+                  inv == InvMod(piv[c], p)
+                  el == [i \in 1..Rows(M) |-> IF i <= r + 1 THEN sw[i]
+                            ELSE LET f == (sw[i][c] * inv) % p
+                                 IN [j \in 1..Cols(M) |-> Mod(sw[i][j] - ((f * piv[j]) % p), p)]]
+              IN RankModFrom(TLCEval(el), r + 1, c + 1, p)
+RankMod(M, p) == IF Rows(M) = 0 THEN 0
+                 ELSE RankModFrom(TLCEval([i \in 1..Rows(M) |-> [j \in 1..Cols(M) |-> ToField(M[i][j], p)]]), 0, 1, p)
+RankP(M) == LET a == RankMod(M, P1) b == RankMod(M, P2) IN IF a > b THEN a ELSE b
+
+\* ---------------------------------------------------------------- linear solve (Gauss-Jordan on [M | rhs])
+\* M square and non-singular (rows of rationals), rhs a vector; returns x with M x = rhs
+RECURSIVE GJ(_, _)
+GJ(Aug, c) ==            \* Aug: n x (n+1) augmented matrix, columns 1..c-1 already reduced
+    LET n == Len(Aug) IN
+    IF c > n THEN [i \in 1..n |-> Aug[i][n + 1]]
+    ELSE LET p == MinOf({i \in c..n : ~RIsZero(Aug[i][c])})
+             sw == [i \in 1..n |-> IF i = c THEN Aug[p] ELSE IF i = p THEN Aug[c] ELSE Aug[i]]
+             piv == VScale(RInv(sw[c][c]), sw[c])
+             el == [i \in 1..n |-> IF i = c THEN piv ELSE VSub(sw[i], VScale(sw[i][c], piv))]
+         IN GJ(TLCEval(el), c + 1)
+Solve(M, rhs) == GJ(TLCEval([i \in 1..Len(M) |-> Append(M[i], rhs[i])]), 1)
+\* inverse of a non-singular square matrix: Gauss-Jordan on [M | I]
+RECURSIVE GJM(_, _, _)
+GJM(Aug, c, n) ==
+    IF c > n THEN [i \in 1..n |-> SubSeq(Aug[i], n + 1, Len(Aug[i]))]
+    ELSE LET p == MinOf({i \in c..n : ~RIsZero(Aug[i][c])})
+             sw == [i \in 1..n |-> IF i = c THEN Aug[p] ELSE IF i = p THEN Aug[c] ELSE Aug[i]]
+             piv == VScale(RInv(sw[c][c]), sw[c])
+             el == [i \in 1..n |-> IF i = c THEN piv ELSE VSub(sw[i], VScale(sw[i][c], piv))]
+         IN GJM(TLCEval(el), c + 1, n)
+MatInverse(M) == LET n == Len(M) IN GJM(TLCEval([i \in 1..n |-> M[i] \o VUnit(n, i)]), 1, n)
+\* pseudo-inverse (A^T A)^-1 A^T of a matrix of full column rank
+LeftInverse(A) == LET At == TLCEval(Transpose(A)) IN MatMul(MatInverse(TLCEval(MatMul(At, A))), At)
+\* least squares: argmin |A v - y|^2 for A of full column rank
+LeastSquares(A, y) == LET At == Transpose(A) IN Solve(MatMul(At, A), MatVec(At, y))
+
 \* ---------------------------------------------------------------- Gaussian rationals
 C(re, im) == <<re, im>>
 CI(a, b) == <<RI(a), RI(b)>>            \* a + b i with integers
